@@ -675,6 +675,9 @@ def build_cases(tier="quick"):
     # `even when the failing call happens inside a nested call`: also for the calls made during invariant testing (C15's unit)
     from contracts import c15
 
+    # vm.assume restricts the REMAINDER of the path: the query of a later assertion still carries it, also for a test path that extends a
+    # sliced setUp path (C11's unit)
+    ref += rewrap(PROP, c11.to_smt2_cases(), "assumptions-stay-in-the-query")
     ref += rewrap(PROP, c15.frontier_cases(), "nested-failure-in-target", lambda c: c.case in ("fail-flag", "fail-flag, raised in a nested frame"))
     return handler_cases() + handle_arm_cases() + delayed_error_cases() + ref
 
